@@ -25,6 +25,7 @@ const (
 	ExitMem    = 4 // resident memory above the limit during a guarded call
 	ExitStop   = 5 // too many violations, stopped early (records written)
 	ExitUnit   = 6 // a whole unit exceeded the harness CPU / memory limit (record written)
+	ExitSlow   = 7 // a guarded call marked "may legitimately be slow" exceeded the budget (record written, not judged)
 )
 
 // Rec is one journal record (JSON line).
@@ -88,6 +89,7 @@ type Ctx struct {
 	callSeq   atomic.Int64 // incremented at every guarded call
 	callKey   atomic.Value // string
 	callNum   atomic.Int64 // numeric suffix of the key (-1: none); see CallN
+	callSoft  atomic.Bool  // the call in progress may legitimately be slow (exponential-time function on a large input)
 	budgetNs  int64
 	budgetCur atomic.Int64 // budget of the current unit (ns)
 	maxCharge atomic.Int64 // largest CPU time charged to one guarded call so far (ns)
@@ -263,6 +265,11 @@ func (c *Ctx) watchdog() {
 		lastSeq, lastCPU = seq, now
 		if charged > c.budgetCur.Load() && c.active.Load() && c.callSeq.Load() == seq {
 			key := c.curKey()
+			if c.callSoft.Load() {
+				c.write(Rec{T: "slow", Unit: c.curUnit, Key: key, CPU: float64(charged) / 1e9})
+				c.flush()
+				os.Exit(ExitSlow)
+			}
 			buf := make([]byte, 1<<16)
 			n := runtime.Stack(buf, true)
 			c.write(Rec{T: "budget", Unit: c.curUnit, Key: key, CPU: float64(charged) / 1e9, Observed: trimStack(string(buf[:n]))})
@@ -350,6 +357,11 @@ func (c *Ctx) Unit(name string, f func()) {
 		return true
 	}()
 	_ = ok
+	// event streams are flushed at every unit end: a child that is killed later (budget, crash) must not lose
+	// what completed units emitted
+	for _, w := range c.streams {
+		w.Flush()
+	}
 	c.writeCum()
 	c.write(Rec{T: "end", Unit: name, Seq: seq, Ms: time.Since(t0).Milliseconds()})
 	c.flush()
@@ -387,6 +399,18 @@ func (p *PanicInfo) String() string {
 // converts a panic into a PanicInfo.  key identifies the case (it is what a
 // budget / crash event is attributed to).
 func (c *Ctx) Call(key string, f func()) (pi *PanicInfo) {
+	return c.CallN(key, -1, f)
+}
+
+// CallSlowOK is Call for a library function whose running time is legitimately exponential in the worst case
+// (canonical labelling of highly symmetric graphs, clique / colouring / cycle counting) on an input that is not
+// small: if it exceeds the CPU budget the case is abandoned and COUNTED (observation
+// "calls_abandoned_as_too_slow(not judged)"), it is not reported as a violation - slow is not wrong, and which
+// inputs are slow depends on incidental choices of the implementation.  Hangs are still caught on the small inputs
+// of the same workloads, which go through Call.
+func (c *Ctx) CallSlowOK(key string, f func()) (pi *PanicInfo) {
+	c.callSoft.Store(true)
+	defer c.callSoft.Store(false)
 	return c.CallN(key, -1, f)
 }
 
